@@ -399,6 +399,44 @@ def foreign_wrappers(ctx, mon, rng):
             del data, st, tk
 
 
+def step_boundaries(ctx, mon, rng):
+    """a decoder that inflates in pieces changes state at multiples of its piece size: plaintexts of every length in a window around the multiples of the
+    sizes such pieces usually have (32, 64, 100, 128 KiB, 100 000 ...), compressible to the end so that output is still pending when the input is used up"""
+    anchors = [32768, 65536, 100000, 102400, 131072, 163840, 196608, 200000, 204800, 229376, 250000]
+    classes = ["constant", "text", "json-record"]
+    rec = b'{"id":12345,"name":"user","active":true,"tags":["a","b"]},'
+    a0 = anchors[ctx.shard % len(anchors)]
+    todo = [(a0, classes[(ctx.shard // len(anchors) + i) % 3]) for i in range(1 if ctx.tier == "quick" else 3)]
+    if ctx.tier == "thorough":
+        todo += [(anchors[(ctx.shard + 5) % len(anchors)], c) for c in classes]
+    j = J.load()
+    key = gen.new_oct(128)
+    jk = j.key(key)
+    for anchor, klass in todo:
+        for delta in list(range(-3, 350)) + [1024, 4096, 70000 if anchor < 150000 else -70000]:
+            n = anchor + delta
+            if n < 0 or n > LIMIT:
+                continue
+            ctx.ev()
+            data = (rec * (n // len(rec) + 1))[:n] if klass == "json-record" else plaintext(n, klass, rng)
+            t = call(j.jwe.encrypt_compact, {"alg": "dir", "enc": "A128GCM", "zip": "DEF"}, data, jk, algorithms=["dir", "A128GCM", "DEF"])
+            if not t.ok:
+                ctx.violation(f"encrypt-fails:{t.key}", f"encrypting {n} octets with zip=DEF failed: {t.exc!r}", {"step_boundaries": True, "n": n, "class": klass})
+                continue
+            mon.proxy.reset()
+            o = call(j.jwe.decrypt_compact, t.value, jk, algorithms=["dir", "A128GCM", "DEF"])
+            ctx.count("decrypts")
+            ctx.count("within_limit")
+            ctx.count("step_boundary_lengths")
+            ctx.nontrivial(("step", anchor, delta, klass))
+            if not o.ok or o.value.plaintext != data:
+                ctx.violation(f"within-limit-rejected:{o.etype}:length-near-{anchor}" if not o.ok else "silently-truncated:length-near-a-step", f"a {n}-octet plaintext ({klass}; {delta:+d} "
+                              f"from {anchor}) does not round-trip with zip=DEF: " + (repr(o.exc) if not o.ok else f"{len(o.value.plaintext)} octets back"),
+                              {"step_boundaries": True, "n": n, "class": klass})
+                break
+        ctx.cell("step-boundary", anchor, klass)
+
+
 def run_shard(ctx):
     J.load()
     J.register_drafts()
@@ -510,6 +548,7 @@ def run_shard(ctx):
             first_octet_cases(ctx, rng)
         if ctx.shard == 12:
             foreign_wrappers(ctx, mon, rng)
+        step_boundaries(ctx, mon, rng)
         if ctx.shard in (8, 9):
             # a raw stream that begins with the octets 78 9c (a stored block whose unused header bits are set - RFC 1951 ignores them) followed by
             # a bomb: whichever way the decoder reads it, what comes back stays within the limit
@@ -583,7 +622,9 @@ def replay(ctx, case):
     J.register_drafts()
     mon = Mon(ctx)
     try:
-        if case.get("foreign_wrapper"):
+        if case.get("step_boundaries"):
+            step_boundaries(ctx, mon, ctx.rng)
+        elif case.get("foreign_wrapper"):
             foreign_wrappers(ctx, mon, ctx.rng)
         elif "n" in case and case.get("class") in CLASSES:
             for _ in range(3):
